@@ -311,6 +311,9 @@ func (p *PX) term(v ssa.Value, fr *pxFrame, st *pxState) *Term {
 						}
 					}
 				}
+				if t := p.arrayCellLoad(fa, fr, st); t != nil {
+					return t // a row of a private local array of structs (pxarrcell.go)
+				}
 				key := p.fieldLoadKey(fa, fr, st)
 				if t, ok := st.vals["mem:"+key]; ok {
 					return t
@@ -415,6 +418,7 @@ func (p *PX) term(v ssa.Value, fr *pxFrame, st *pxState) *Term {
 		if t := p.roIndexAddr(a, i, v.Type()); t != nil {
 			return t
 		}
+		i = p.decidedIndex(a, i, st)
 		return &Term{K: TLeaf, V: v, T: v.Type(), key: "idx(" + a.key + "," + i.key + ")"}
 	case *ssa.Convert:
 		a := p.term(x.X, fr, st)
@@ -489,6 +493,13 @@ func (p *PX) term(v ssa.Value, fr *pxFrame, st *pxState) *Term {
 				return p.term(ms.Len, fr, st)
 			}
 			a := p.term(c.Args[0], fr, st)
+			if nc, ok := a.V.(*ssa.Const); ok && a.K == TLeaf && nc.Value == nil {
+				// len of the nil slice / map handed down as an argument (`pack(tag, 0, nil)`)
+				switch a.T.Underlying().(type) {
+				case *types.Slice, *types.Map:
+					return &Term{K: TConst, C: new(big.Int), T: v.Type(), key: "0"}
+				}
+			}
 			if al, ok := a.V.(*ssa.Alloc); ok && a.K == TLeaf && !p.views {
 				if n, ok := localArrayLen(al); ok && isSliceOrArrayPtr(c.Args[0].Type()) {
 					nb := big.NewInt(n)
@@ -523,9 +534,22 @@ func (p *PX) term(v ssa.Value, fr *pxFrame, st *pxState) *Term {
 		} else if sc := c.StaticCallee(); sc != nil {
 			name = qualifiedFnName(sc)
 		}
+		// a library function called through a function value known on the path (a method
+		// value `be16 := binary.BigEndian.Uint16`, `unix := date.Unix`; pxlibfv.go): the
+		// same call with the bound receiver put back in front
+		var fvRecv *Term
+		cargs := c.Args
+		if sc := c.StaticCallee(); !c.IsInvoke() && (sc == nil || len(sc.FreeVars) > 0) {
+			if lf, recv := p.libFuncValue(c, fr, st); lf != nil {
+				name, fvRecv = qualifiedFnName(lf), recv
+				if recv != nil {
+					cargs = append([]ssa.Value{nil}, c.Args...)
+				}
+			}
+		}
 		// binary.BigEndian.UintNN over a buffer whose octets are known terms
-		if n := map[string]int{"(encoding/binary.bigEndian).Uint16": 2, "(binary.bigEndian).Uint16": 2, "(encoding/binary.bigEndian).Uint32": 4, "(binary.bigEndian).Uint32": 4, "(encoding/binary.bigEndian).Uint64": 8, "(binary.bigEndian).Uint64": 8}[name]; n > 0 && len(c.Args) == 2 {
-			if bs := p.byteSeqOf(c.Args[1], fr, st); bs != nil && len(bs.Oct) >= n {
+		if n := map[string]int{"(encoding/binary.bigEndian).Uint16": 2, "(binary.bigEndian).Uint16": 2, "(encoding/binary.bigEndian).Uint32": 4, "(binary.bigEndian).Uint32": 4, "(encoding/binary.bigEndian).Uint64": 8, "(binary.bigEndian).Uint64": 8}[name]; n > 0 && len(cargs) == 2 {
+			if bs := p.byteSeqOf(cargs[1], fr, st); bs != nil && len(bs.Oct) >= n {
 				if t := beTerm(bs.Oct[:n], v.Type()); t != nil {
 					return t
 				}
@@ -538,6 +562,10 @@ func (p *PX) term(v ssa.Value, fr *pxFrame, st *pxState) *Term {
 				a := p.term(c.Value, fr, st)
 				args = append(args, a)
 				keys = append(keys, a.key)
+			}
+			if fvRecv != nil {
+				args = append(args, fvRecv)
+				keys = append(keys, fvRecv.key)
 			}
 			for _, a := range c.Args {
 				ta := p.term(a, fr, st)
@@ -721,6 +749,7 @@ func (p *PX) instrs(fr *pxFrame, b *ssa.BasicBlock, from int, st *pxState, k pxC
 			cell := p.reg(fr, x) + "*"
 			delete(st.vals, cell)
 			delete(st.bseq, cell)
+			p.arrayCellReset(x, fr, st)
 			if pt, ok := x.Type().Underlying().(*types.Pointer); ok {
 				if z := zeroOf(pt.Elem()); z != nil {
 					st.vals[cell] = z
@@ -775,6 +804,7 @@ func (p *PX) instrs(fr *pxFrame, b *ssa.BasicBlock, from int, st *pxState, k pxC
 			}
 			if fa, ok := x.Addr.(*ssa.FieldAddr); ok {
 				vt := p.term(x.Val, fr, st)
+				p.arrayCellStore(fa, vt, fr, st) // a row of a private local array of structs (pxarrcell.go)
 				p.bumpField(fieldID(fa), st)
 				if al, isLocal := fa.X.(*ssa.Alloc); isLocal {
 					fk := fmt.Sprintf("%s.%d", p.reg(fr, al), fa.Field)
@@ -1268,6 +1298,7 @@ func (p *PX) havocLoopKeep(fr *pxFrame, lp *loopInfo, st *pxState, keep map[stri
 				}
 				if fa, ok := x.Addr.(*ssa.FieldAddr); ok {
 					p.bumpField(fieldID(fa), st)
+					p.arrayCellHavoc(fa, fr, st)
 				}
 			}
 		}
